@@ -538,12 +538,20 @@ class Parser:
 
     def parse_float_literal(self, stream: TokenStream) -> FilterExpression:
         try:
-            return FloatLiteral(value=float(stream.current.value))
+            value = float(stream.current.value)
         except ValueError as err:
             raise JSONPathSyntaxError(
                 f"invalid float literal {stream.current.value[:20]!r}",
                 token=stream.current,
             ) from err
+
+        if value in (float("inf"), float("-inf")):
+            # Not a JSON number, and its string form ("inf") is not a literal.
+            raise JSONPathSyntaxError(
+                f"float literal out of range {stream.current.value[:20]!r}",
+                token=stream.current,
+            )
+        return FloatLiteral(value=value)
 
     def _to_int(self, token: Token) -> int:
         """Convert an index or slice token to an int, or raise a syntax error."""
